@@ -572,26 +572,23 @@ Proof. unfold fields_fin. destruct q; [discriminate|]. destruct (_ || _); [discr
 
 (** if scanFields starts at an '=' right after a skipped SPACE it fails ("missing field key") *)
 Lemma scan_fields_not_eq r1 f0 fields r2 :
-  no_tab_nul r1 = true -> (exists r', r1 = SP :: r') ->
   scan_fields r1 = Ok (f0 :: fields, r2) -> (f0 =? EQ) = false.
 Proof.
-  intros NT [r' ->] H. unfold scan_fields in H.
-  cbn [skip_ws_last skip_ws] in H. unfold is_ws in H. rewrite N.eqb_refl in H. cbn [orb] in H.
-  cbn in NT. rewrite (skip_ws_last_sp r' NT) in H.
-  destruct (skip_ws r') as [|c t] eqn:SK.
+  unfold scan_fields. generalize (skip_ws_last 0 r1). intros p1 H.
+  destruct (skip_ws r1) as [|c t] eqn:SK.
   - cbn in H. inversion H.
-  - cbn [scan_fields_st] in H. destruct (c =? EQ) eqn:E.
-    + apply N.eqb_eq in E. subst c. exfalso. cbn in H. discriminate.
-    + assert (FIN : forall x, x = Ok (f0 :: fields, r2) ->
+  - destruct (c =? EQ) eqn:E; [discriminate|].
+    cbn [scan_fields_st] in H. rewrite E in H.
+    assert (FIN : forall x, x = Ok (f0 :: fields, r2) ->
                (exists r, x = fcons c r) \/ (exists q e m rest, x = fields_fin q e m rest) \/ (exists e, x = Err e) ->
                (f0 =? EQ) = false).
-      { intros x Hx [[r ->]|[[q [e [m [rest ->]]]]|[e ->]]].
-        - apply fcons_ok in Hx as [a' [Ha _]]. inversion Ha; subst. exact E.
-        - apply fields_fin_ok in Hx. discriminate.
-        - discriminate. }
-      apply (FIN _ H). clear H FIN.
-      destruct (c =? BSL); [destruct t as [|a t2]|]; cbn [andb negb orb];
-        repeat match goal with |- context [if ?b then _ else _] => destruct b end; eauto 8.
+    { intros x Hx [[r ->]|[[q [e [m [rest ->]]]]|[e ->]]].
+      - apply fcons_ok in Hx as [a' [Ha _]]. inversion Ha; subst. exact E.
+      - apply fields_fin_ok in Hx. discriminate.
+      - discriminate. }
+    apply (FIN _ H). clear H FIN.
+    destruct (c =? BSL); [destruct t as [|a t2]|]; cbn [andb negb orb];
+      repeat match goal with |- context [if ?b then _ else _] => destruct b end; eauto 8.
 Qed.
 
 Lemma fields_of_first_key f0 fields ps :
@@ -716,41 +713,40 @@ Proof.
 Qed.
 
 Lemma parsed_points_named_field prec dflt buf p :
-  no_tab_nul buf = true ->
   In p (fst (parse_points prec dflt buf)) ->
   exists k v r, v_fields (view p) = (k, v) :: r /\ k <> [].
 Proof.
-  intros NT H. unfold parse_points in H. apply parse_lines_point in H as [t [Ht H]].
-  apply candidate_lines_incl in Ht.
+  intro H. unfold parse_points in H. apply parse_lines_point in H as [t [Ht H]].
   apply parse_point_inv in H as [r1 [r2 [ts [r3 [ps [K [KN [KL [F [FN [W _]]]]]]]]]]].
-  destruct (scan_key_rest _ _ _ K) as [I S].
   destruct (rp_fields p) as [|f0 fields] eqn:EF; [congruence|].
-  assert (E : (f0 =? EQ) = false).
-  { eapply scan_fields_not_eq; [|exact S|exact F].
-    eapply no_tab_nul_incl; [|exact NT]. eapply incl_tran; eauto. }
+  assert (E : (f0 =? EQ) = false) by (eapply scan_fields_not_eq; exact F).
   unfold view; cbn [v_fields]. rewrite EF. eapply fields_of_first_key; eauto. eapply split_fields_klen0; eauto.
 Qed.
 
-(** the known defect: a field with an EMPTY key is accepted after TAB (or NUL) *)
-Definition tab_witness : bytes := [109; 32; 9; 61; 49].   (* "m \t=1" *)
-Lemma named_field_refuted :
-  exists p, fst (parse_points P_ns 0 tab_witness) = [p] /\ snd (parse_points P_ns 0 tab_witness) = [] /\
-            v_fields (view p) = [([], VFloat 4607182418800017408)] /\ wf_view (view p) = false.
-Proof.
-  exists {| rp_key := [109]; rp_fields := [61; 49]; rp_time := 0 |}.
-  vm_compute. auto.
-Qed.
+(** regression example of the repaired defect: "m<space><TAB>=1" (a field with an EMPTY key after
+    skipped TAB whitespace) is now rejected with "missing field key" *)
+Definition tab_witness : bytes := [109; 32; 9; 61; 49].
+Lemma tab_witness_rejected :
+  parse_points P_ns 0 tab_witness = ([], [(tab_witness, E_MISSING_FIELD_KEY)]).
+Proof. vm_compute. reflexivity. Qed.
 
-(** a second defect: scanFields pairs backslashes (the '=' after an escaped backslash is a real
-    separator), walkFields / FieldIterator look one byte back (that '=' is "escaped"): the line
-    is accepted, the iterator splits it differently and its last value is a lone double quote,
-    on which StringValue() (and Fields()) PANIC.  Line:  m a\\="x=t,b="  *)
+(** an open defect: scanFields pairs backslashes (the '=' after an escaped backslash is a real
+    separator), walkFields / FieldIterator look one byte back (that '=' is escaped): the line is
+    accepted and the iterator splits it differently.  With  m a\\="x=-i,b=1" 5  the iterator
+    yields an Integer field whose IntegerValue() fails.  (With  m a\\="x=t,b="  the last value is a
+    lone double quote: StringValue() used to PANIC there; it now returns the empty string.) *)
 Definition bsl_witness : bytes := [109; 32; 97; 92; 92; 61; 34; 120; 61; 116; 44; 98; 61; 34].
-Lemma accessor_panic_refuted :
-  map (fun p => v_fields (view p)) (fst (parse_points P_ns 0 bsl_witness))
-    = [[([97; 92; 61; 34; 120], VBool true); ([98], VErr 3)]] /\
-  snd (parse_points P_ns 0 bsl_witness) = [].
+Definition bsl_witness2 : bytes :=
+  [109; 32; 97; 92; 92; 61; 34; 120; 61; 45; 105; 44; 98; 61; 49; 34; 32; 53].
+Lemma accessor_error_refuted :
+  map (fun p => v_fields (view p)) (fst (parse_points P_ns 0 bsl_witness2))
+    = [[([97; 92; 61; 34; 120], VErr 0); ([98], VErr 1)]] /\
+  snd (parse_points P_ns 0 bsl_witness2) = [].
 Proof. vm_compute. split; reflexivity. Qed.
+Lemma lone_quote_no_panic :
+  map (fun p => v_fields (view p)) (fst (parse_points P_ns 0 bsl_witness))
+    = [[([97; 92; 61; 34; 120], VBool true); ([98], VStr [])]].
+Proof. vm_compute. reflexivity. Qed.
 
 Lemma errors_name_rejected_lines prec dflt buf :
   map fst (snd (parse_points prec dflt buf))
